@@ -476,6 +476,9 @@ def field_def(case, spec, values):
         return {"random_reference": spec[1]}
     if k == "objref":
         return {"reference": {"object": spec[1], "id": spec[2]}}
+    if k == "altref":      # one field, two target tables: the first row of the template refers to spec[1], later rows to spec[2]
+        return {"if": [{"choice": {"when": "${{child_index == 0}}", "pick": {"reference": spec[1]}}},
+                       {"choice": {"pick": {"reference": spec[2]}}}]}
     if case.get("route") == "literal" and literal_ok(spec, case["version"]):
         return pyval(spec)
     values.append(pyval(spec))
@@ -489,7 +492,8 @@ def build_recipe(case, second):
     stmts = [{"snowfakery_version": case["version"]}, {"plugin": PLUGIN_MOD + ".Vals"}]
     probe = {}
     for ti, t in enumerate(case["templates"]):
-        st = {"object": t["table"], "just_once": True}
+        jo = t.get("just_once", True)
+        st = {"object": t["table"], "just_once": True} if jo else {"object": t["table"]}
         if t.get("nick"):
             st["nickname"] = t["nick"]
         if t.get("count", 1) != 1:
@@ -502,7 +506,11 @@ def build_recipe(case, second):
         # of that table (register_object: last created wins); the nickname denotes its own row
         last_of_table = all(u["table"] != t["table"] for u in case["templates"][ti + 1:])
         shared = sum(1 for u in case["templates"] if u["table"] == t["table"]) > 1
-        handles = ([t["table"]] if last_of_table else []) + ([t["nick"]] if t.get("nick") else [])
+        # rows of ordinary (not just_once) templates are made again by every iteration: they are not
+        # persistent state, and they take over the table name while their iteration lasts
+        all_jo = all(u.get("just_once", True) for u in case["templates"] if u["table"] == t["table"])
+        handles = (([t["table"]] if last_of_table and all_jo else []) + ([t["nick"]] if t.get("nick") else [])) if jo else []
+        last_of_table = last_of_table and all_jo
         for h in handles:
             for fn, spec in [["id", ["int", 0]]] + t["fields"]:
                 peeks.append([h, fn])
@@ -587,11 +595,13 @@ def one_run(recipe_text, values, peeks, continuation, target=None):
     spy._sfv_orig = orig
     if orig is not None:
         DG.save_continuation_yaml = spy
-    res = {"rows": None, "log": None, "run_err": None, "dump_err": None, "text": None, "saved": None, "state": None}
+    res = {"rows": None, "log": None, "run_err": None, "dump_err": None, "text": None, "saved": None, "state": None,
+           "mapping": None}
     try:
-        DG.generate(io.StringIO(recipe_text), {}, cap, app, generate_continuation_file=out,
-                    continuation_file=io.StringIO(continuation) if continuation is not None else None)
+        summary = DG.generate(io.StringIO(recipe_text), {}, cap, app, generate_continuation_file=out,
+                              continuation_file=io.StringIO(continuation) if continuation is not None else None)
         res["text"] = out.getvalue()
+        res["mapping"] = cci_mapping(summary)
     except BaseException as e:
         if type(e).__name__ == "_CaseTimeout":
             raise
@@ -609,6 +619,20 @@ def one_run(recipe_text, values, peeks, continuation, target=None):
     res["saved"] = seen.get("saved")
     res["state"] = seen.get("state")
     return res
+
+
+def cci_mapping(summary):
+    """the CCI mapping generated from a finished run (what `--generate-cci-mapping-file` writes), as an
+    ordered list of [step name, step]; None when it cannot be produced (not this property's business)"""
+    import json
+    try:
+        from snowfakery.generate_mapping_from_recipe import mapping_from_recipe_templates
+        m = mapping_from_recipe_templates(summary)
+        return json.loads(json.dumps([[k, v] for k, v in m.items()], default=str))
+    except BaseException as e:
+        if type(e).__name__ == "_CaseTimeout":
+            raise
+        return None
 
 
 def load_text(text):
@@ -691,7 +715,7 @@ def run_recipe_case(case):
     obs = {"kind": "recipe"}
     text_r1, values, peeks = build_recipe(case, second=False)
     r1 = one_run(text_r1, values, peeks, None)
-    obs["run1"] = {k: r1[k] for k in ("rows", "log", "run_err", "dump_err", "saved", "state")}
+    obs["run1"] = {k: r1[k] for k in ("rows", "log", "run_err", "dump_err", "saved", "state", "mapping")}
     obs["run1"]["msg"] = r1.get("run_msg") or r1.get("dump_msg")
     obs["peeks"] = peeks
     if r1["run_err"] or r1["dump_err"]:
@@ -718,7 +742,7 @@ def run_recipe_case(case):
     cur = fed
     for _ in range(case.get("hops", 1)):
         r = one_run(text_r2, values2, peeks2, cur, target=case.get("target"))
-        h = {k: r[k] for k in ("rows", "log", "run_err", "dump_err")}
+        h = {k: r[k] for k in ("rows", "log", "run_err", "dump_err", "mapping")}
         h["msg"] = r.get("run_msg") or r.get("dump_msg")
         if r["text"] is not None:
             h["tree"] = parse_tree(r["text"])
@@ -1237,9 +1261,33 @@ def oracle(case, obs):
                             f"new file says {i2.get(t, 0)}")
         d1, d2 = _tree_deps(prev_tree), _tree_deps(t2)
         if d1 is not None and d2 is not None and d2[:len(d1)] != d1:
-            return f"deps-not-restored: references {d1[:5]} of the file are {d2[:5]} after {nth}"
+            return f"deps-not-restored: references {d1[:6]} of the file are {d2[:6]} after {nth}"
+        if d1 is not None and d2 is not None:
+            # ... and what the continued run recorded itself comes after them, once each
+            vis = lambda l: [d for d in l if not d[0].startswith("__") and not d[2].startswith("__")]
+            tail = vis(d2[len(d1):])
+            new = [d for d in _deps_of_rows(h["rows"]) if d not in d1]
+            if sorted(tail) != sorted(new):
+                return (f"deps-after-continuation: the file said {d1[:6]}, {nth} wrote rows with the new references "
+                        f"{new[:6]}, its file adds {tail[:6]}")
+        # (iii) the CCI mapping generated by the continued run: same recipe + restored references = same mapping
+        m1, mn = r1.get("mapping"), h.get("mapping")
+        if m1 is not None and mn is not None and not case.get("extra") and m1 != mn:
+            return f"mapping-differs: the CCI mapping generated by {nth} differs from the first run's: {_mapping_diff(m1, mn)}"
         prev_tree = t2
     return deferred
+
+
+def _mapping_diff(a, b):
+    ka, kb = [k for k, _ in a], [k for k, _ in b]
+    if ka != kb:
+        return f"load steps {ka[:6]} became {kb[:6]}"
+    for (k, x), (_, y) in zip(a, b):
+        if x != y:
+            for f in sorted(set(x) | set(y)):
+                if x.get(f) != y.get(f):
+                    return f"step {k!r}: {f} {str(x.get(f))[:90]} became {str(y.get(f))[:90]}"
+    return "?"
 
 
 # =============================================================================== findings
@@ -1267,7 +1315,7 @@ def has_unrepresentable(case):
 
 def has_row_valued(case):
     for ti, s, seen in _specs(case):
-        if s[0] == "row" or (s[0] == "ref" and s[1] in seen):
+        if s[0] in ("row", "altref") or (s[0] == "ref" and s[1] in seen):
             return True
     return False
 
@@ -1357,6 +1405,146 @@ def gen_recipe_case(rng, findings=False, single=None, shared_tables=None):
             "extra": rng.random() < 0.3, "target": rng.choice([None, None, 2, 3])}
 
 
+# names that collide under a too-coarse notion of "the same reference": equal up to case, surrounding
+# blanks, or in one component only
+DEP_FIELDS = ["WhoId", "ParentId", "whoid", "WhoId ", "owner", "x #y", "yes", "\xe9t\xe9"]
+DEP_TABLES = ["Task", "Contact", "Lead", "lead", "Attachment", "Acct"]
+
+
+def gen_deps(rng, tables):
+    """a list of (from, to, field) references in recording order.  Drawn from small pools so that entries
+    agree in one or two components: one field of one table referring to two tables (polymorphic lookup),
+    two fields between the same pair of tables, the same field name in two tables, self-references,
+    tables that have no rows / no counter, exact repetitions"""
+    n = rng.choice([0, 0, 1, 2, 3, 4, 6])
+    if n == 0:
+        return []
+    tabs = list(tables) + rng.sample(DEP_TABLES, rng.choice([0, 1, 2, 3]))
+    if not tabs:
+        tabs = rng.sample(DEP_TABLES, 2)
+    tabs = tabs[:4] if rng.random() < 0.7 else tabs
+    fields = rng.sample(DEP_FIELDS, rng.choice([1, 2, 2, 3])) if rng.random() < 0.7 else \
+        [rng.choice(IDENT_FIELDS + HOSTILE_FIELDS) for _ in range(3)]
+    deps = [[rng.choice(tabs), rng.choice(tabs), rng.choice(fields)] for _ in range(n)]
+    for _ in range(rng.choice([0, 1, 1, 2])):
+        a = list(rng.choice(deps))
+        k = rng.choice(["to", "field", "from", "self", "same", "swap"])
+        if k == "to":
+            a[1] = rng.choice(tabs)
+        elif k == "field":
+            a[2] = rng.choice(fields)
+        elif k == "from":
+            a[0] = rng.choice(tabs)
+        elif k == "self":
+            a[1] = a[0]
+        elif k == "swap":
+            a[0], a[1] = a[1], a[0]
+        deps.insert(rng.randrange(len(deps) + 1), a)
+    return deps
+
+
+def dep_features(deps):
+    """which kinds of near-collisions a dependency list contains"""
+    out = set()
+    u = []
+    for d in deps:
+        if d in u:
+            out.add("deps:recorded-twice")
+        else:
+            u.append(d)
+    for i, a in enumerate(u):
+        if a[0] == a[1]:
+            out.add("deps:self-reference")
+        for b in u[i + 1:]:
+            same = (a[0] == b[0], a[1] == b[1], a[2] == b[2])
+            if same == (True, False, True):
+                out.add("deps:one-field-two-targets")
+            elif same == (True, True, False):
+                out.add("deps:two-fields-same-pair")
+            elif same == (False, True, True):
+                out.add("deps:same-field-and-target-two-sources")
+            elif [x.strip().lower() for x in a] == [x.strip().lower() for x in b]:
+                out.add("deps:equal-up-to-case-or-blanks")
+    if len(u) >= 2 and u != sorted(u):
+        out.add("deps:not-in-sorted-order")
+    if u:
+        out.add("deps:some")
+    return out
+
+
+def gen_polyref_case(rng):
+    """inter-table references across continuation: 2-3 target tables, then 2-4 referencing templates whose
+    reference fields come from a pool of 1-2 names and whose tables come from a pool of 1-2 tables - so one
+    field of one table refers to several tables (polymorphic lookup, e.g. Task.WhoId -> Contact | Lead),
+    several fields refer to one table, etc.  Each template is just_once (persistent: the continued run skips
+    it, what it knows is what the file restored) or ordinary (re-records the reference in every iteration)."""
+    version = 3 if rng.random() < 0.85 else 2
+    taken = {PROBE_TABLE, EXTRA_TABLE, EXTRA_NICK}
+    ntg = rng.choice([2, 2, 3])
+    tg_tables = _names(rng, ["Contact", "Lead", "Acct", "Campaign", "K"], HOSTILE_TABLES, ntg, 0.15, taken)
+    taken |= set(tg_tables)
+    nsrc = rng.choice([1, 1, 2])
+    src_tables = _names(rng, ["Task", "Event", "Note_2"], HOSTILE_TABLES, nsrc, 0.15, taken)
+    taken |= set(src_tables)
+    p_jo = rng.choice([1.0, 0.7, 0.3, 0.0])
+    templates = []
+    handles = []          # (name to refer to, table it denotes)
+    for t in tg_tables:
+        nick = None
+        if rng.random() < 0.4:
+            nick = _names(rng, IDENT_NICKS + ["c1", "l1"], ["yes", "123", "A B"], 1, 0.15, taken)[0]
+            taken.add(nick)
+        templates.append({"table": t, "nick": nick, "count": 1, "just_once": rng.random() < max(p_jo, 0.5),
+                          "fields": [[rng.choice(IDENT_FIELDS), gen_scalar_spec(rng)]]})
+        if "." not in t:
+            handles.append((t, t))
+        if nick and "." not in nick:
+            handles.append((nick, t))
+    if len({tb for _, tb in handles}) < 2:
+        return gen_polyref_case(rng)
+    fields = rng.sample(DEP_FIELDS[:6], rng.choice([1, 1, 2]))
+    nref = rng.choice([2, 2, 3, 4])
+    refs = []
+    for i in range(nref):
+        refs.append([rng.choice(src_tables), rng.choice(fields), rng.choice(handles)])
+    if rng.random() < 0.75:      # make sure of one polymorphic lookup
+        i, j = rng.sample(range(nref), 2)
+        refs[j][0], refs[j][1] = refs[i][0], refs[i][1]
+        others = [h for h in handles if h[1] != refs[i][2][1]]
+        refs[j][2] = rng.choice(others)
+    src_nicks = []
+    for tb, fn, (name, _) in refs:
+        nick = None
+        if rng.random() < 0.5:
+            nick = _names(rng, ["t1", "t2", "t3", "t4", "contact_task", "lead_task"], [], 1, 0.0, taken)[0]
+            taken.add(nick)
+        jo = rng.random() < p_jo
+        flds = [[fn, ["ref", name]]]
+        count = 1
+        if rng.random() < 0.2:
+            other = rng.choice([h for h in handles if h[0] != name])
+            flds = [[fn, ["altref", name, other[0]]]]
+            count = rng.choice([2, 3])
+        if rng.random() < 0.3:
+            f2 = rng.choice([f for f in DEP_FIELDS[:6] + ["Second"] if f != fn])
+            flds.append([f2, ["ref", rng.choice(handles)[0]]])
+        if rng.random() < 0.5:
+            flds.insert(rng.randrange(len(flds) + 1), [rng.choice(["Subject", "n", "amount"]), gen_scalar_spec(rng)])
+        templates.append({"table": tb, "nick": nick, "count": count, "just_once": jo, "fields": flds})
+        if nick:
+            src_nicks.append(nick)
+    if rng.random() < 0.5:        # something recorded after them (an ordinary template, as `Attachment` in a Salesforce recipe)
+        tgt = rng.choice(src_nicks) if src_nicks and rng.random() < 0.6 else \
+            rng.choice([x for x in src_tables if "." not in x] or [handles[0][0]])
+        tb = _names(rng, ["Attachment", "Doc"], [], 1, 0.0, taken)[0]
+        templates.append({"table": tb, "nick": None, "count": rng.choice([1, 2]), "just_once": False,
+                          "fields": [[rng.choice(["ParentId", "WhoId"]), ["ref", tgt]]]})
+    return {"kind": "recipe", "stream": "polyref", "version": version, "route": "plugin", "templates": templates,
+            "chain": rng.choice([1, 2, 3]), "hops": rng.choice([1, 2, 2, 3]),
+            "today": rng.choice([None, None, [2001, 2, 3]]), "extra": rng.random() < 0.15,
+            "target": rng.choice([None, None, 2, 3])}
+
+
 def gen_direct_case(rng, findings=False):
     nt = rng.choice([0, 1, 2, 3, 6])
     tables = _names(rng, IDENT_TABLES, HOSTILE_TABLES, nt, 0.5, set()) if nt else []
@@ -1392,10 +1580,7 @@ def gen_direct_case(rng, findings=False):
     rng.shuffle(nat)
     ids = [[t, rng.choice([0, 1, 2, 8, 9, 1000, 2 ** 64, 2 ** 200])] for t in tables if rng.random() < 0.9]
     rng.shuffle(ids)
-    deps = []
-    for _ in range(rng.choice([0, 0, 1, 2, 4])):
-        if tables:
-            deps.append([rng.choice(tables), rng.choice(tables), rng.choice(IDENT_FIELDS + HOSTILE_FIELDS)])
+    deps = gen_deps(rng, tables)
     if deps and rng.random() < 0.3:
         deps.append(list(deps[0]))       # registering the same reference twice: a set
     return {"kind": "direct", "nat": nat, "ids": ids, "rows": rows, "deps": deps,
@@ -1526,12 +1711,64 @@ def shared_table_cases():
     return out
 
 
+def polyref_cases():
+    """one field of one table referring to two tables (Salesforce: Task.WhoId -> Contact | Lead), written as two
+    templates or as one template with a conditional reference; referencing templates just_once or ordinary, in
+    both orders, with and without a later reference; plus the same lists through the API"""
+    out = []
+    i = 0
+    for jo_refs in (True, False):
+        for order in (("Contact", "Lead"), ("Lead", "Contact")):
+            for later in (True, False):
+                for form in ("two", "alt"):
+                    tpls = [{"table": "Contact", "nick": None, "count": 1, "just_once": True, "fields": [["LastName", ["str", "Seed"]]]},
+                            {"table": "Lead", "nick": None, "count": 1, "just_once": True, "fields": [["Company", ["str", "Seed"]]]}]
+                    if form == "two":
+                        for tg in order:
+                            tpls.append({"table": "Task", "nick": tg.lower() + "_task", "count": 1, "just_once": jo_refs,
+                                         "fields": [["Subject", ["str", "call"]], ["WhoId", ["ref", tg]]]})
+                        parent = "lead_task"
+                    else:
+                        tpls.append({"table": "Task", "nick": "any_task", "count": 2, "just_once": jo_refs,
+                                     "fields": [["WhoId", ["altref", order[0], order[1]]]]})
+                        parent = "any_task"
+                    if later:
+                        tpls.append({"table": "Attachment", "nick": None, "count": 2, "just_once": False,
+                                     "fields": [["ParentId", ["ref", parent]]]})
+                    out.append({"kind": "recipe", "stream": "polyref", "version": 3, "route": "plugin", "templates": tpls,
+                                "chain": 2, "hops": 2, "today": [2001, 2, 3] if i % 2 else None, "extra": False,
+                                "target": [None, 2][i % 2]})
+                    i += 1
+    lists = [
+        [["Task", "Contact", "WhoId"], ["Task", "Lead", "WhoId"]],
+        [["Task", "Lead", "WhoId"], ["Task", "Contact", "WhoId"], ["Attachment", "Task", "ParentId"]],
+        [["Task", "Contact", "WhoId"], ["Task", "Contact", "WhatId"]],
+        [["Task", "Contact", "WhoId"], ["Event", "Contact", "WhoId"]],
+        [["Acct", "Acct", "ParentId"], ["Acct", "Contact", "ParentId"], ["Contact", "Acct", "ParentId"]],
+        [["Task", "Lead", "WhoId"], ["Task", "lead", "WhoId"], ["task", "Lead", "whoid"], ["Task", "Lead", "WhoId "]],
+        [["Z", "Y", "f"], ["Y", "X", "f"], ["A", "Z", "f"], ["A", "B", "a"]],
+    ]
+    for deps in lists:
+        tabs = []
+        for a, b, _ in deps:
+            for t in (a, b):
+                if t not in tabs:
+                    tabs.append(t)
+        out.append({"kind": "direct", "nat": [[t, t] for t in tabs[:2]], "ids": [[t, 1] for t in tabs[:2]],
+                    "rows": [{"table": tabs[0], "nick": None, "values": [["id", ["int", 1]], ["name", ["str", "x"]]]}],
+                    "deps": deps, "today": [2024, 2, 29], "chain": 2})
+    return out
+
+
 def generate(rng, tier):
     _janitor()
     quick = tier == "quick"
     cases = []
     cases.extend(boundary_cases(rng))
     cases.extend(shared_table_cases())
+    cases.extend(polyref_cases())
+    for _ in range(40 if quick else 1500):
+        cases.append(gen_polyref_case(rng))
     for _ in range(140 if quick else 4000):
         cases.append(gen_recipe_case(rng))
     for _ in range(24 if quick else 400):
@@ -1578,7 +1815,25 @@ def stats(cases, obss):
         if c["kind"] in ("recipe", "direct"):
             for _, s, _ in _specs(c):
                 vt[s[0]] += 1
+        if c["kind"] in ("recipe", "direct"):
+            base = o.get("run1") if c["kind"] == "recipe" else o
+            sv = (base or {}).get("saved")
+            if sv:
+                for f in dep_features(sv["deps"]):
+                    feats[f] += 1
         if c["kind"] == "recipe":
+            if c.get("stream") == "polyref":
+                feats["polyref-stream"] += 1
+                refs = [t for t in c["templates"] if any(sp[0] in ("ref", "altref") for _, sp in t["fields"])]
+                jo = [t.get("just_once", True) for t in refs]
+                feats["  referencing templates " + ("all just_once" if all(jo) else "all ordinary" if not any(jo) else "mixed")] += 1
+                if any(sp[0] == "altref" for t in refs for _, sp in t["fields"]):
+                    feats["  conditional reference (one template, two targets)"] += 1
+            ms = [o["run1"].get("mapping")] + [h.get("mapping") for h in o.get("hops") or []]
+            if len(ms) > 1 and all(m is not None for m in ms) and not c.get("extra"):
+                feats["cci-mapping-compared"] += 1
+                if any("lookups" in st for _, st in ms[0]):
+                    feats["  with lookups"] += 1
             feats[f"version{c['version']}"] += 1
             feats[f"route-{c['route']}"] += 1
             feats[f"hops{c['hops']}"] += 1
@@ -1624,7 +1879,8 @@ def shrink(case):
             for i in range(len(ts)):
                 gone = {ts[i]["table"], ts[i].get("nick")}
                 rest = [t for j, t in enumerate(ts) if j != i]
-                if not any(s[0] in ("ref", "randref") and s[1] in gone for t in rest for _, s in t["fields"]):
+                if not any(s[0] in ("ref", "randref", "altref") and (s[1] in gone or (s[0] == "altref" and s[2] in gone))
+                           for t in rest for _, s in t["fields"]):
                     yield dict(case, templates=rest)
         for i, t in enumerate(ts):
             if len(t["fields"]) > 1:
@@ -1667,6 +1923,9 @@ def directed_search(rng, disagreeing):
     for c in out:
         c["today"] = [2001, 2, 3]
     out.extend(shared_table_cases())
+    out.extend(polyref_cases())
+    for _ in range(150):
+        out.append(gen_polyref_case(rng))
     for _ in range(200):
         out.append(gen_recipe_case(rng, shared_tables=True))
     for _ in range(400):
